@@ -34,6 +34,7 @@ NJOBS = int(os.environ.get("VERIF_JOBS", "14"))
 MEM_GB = int(os.environ.get("VERIF_MEM_GB", "14"))
 MAX_REPLAYS = int(os.environ.get("VERIF_MAX_REPLAYS", "3"))   # counterexamples replayed natively per check run
 CURRENT_PROP = [""]
+PARTIAL = [False]
 
 CRATE_OF = {"h263": "h263-rs", "yuv": "h263-rs-yuv", "deblock": "h263-rs-deblock"}
 CRATE_LIB = {"h263": "h263/src/lib.rs", "yuv": "yuv/src/lib.rs", "deblock": "deblock/src/lib.rs"}
@@ -178,6 +179,13 @@ class Scratch:
             if line not in src:
                 raise SystemExit("INCONCLUSIVE: state.rs no longer imports std::collections::HashMap on one line")
             src = src.replace(line, "#[cfg(not(kani))]\nuse std::collections::HashMap;\n#[cfg(kani)]\nuse self::verif_state::verif_map::HashMap;", 1)
+            # pixel callees: under native replay the contract preconditions are asserted in front of the REAL callee, so that a
+            # contract violation found under Kani (where the callee is a contract stub) reproduces natively
+            line = "use crate::decoder::cpu::{gather, idct_channel, inverse_rle, mv_decode, predict_candidate};"
+            if line not in src:
+                raise SystemExit("INCONCLUSIVE: state.rs no longer imports the cpu callees on one line")
+            src = src.replace(line, "#[cfg(not(verif_replay))]\n" + line + "\n#[cfg(verif_replay)]\nuse crate::decoder::cpu::{mv_decode, predict_candidate};\n"
+                              "#[cfg(verif_replay)]\nuse self::verif_state::replay_wrappers::{gather, idct_channel, inverse_rle};", 1)
             # parser entry points -> script-driven producers (DESIGN.md 2.3), under Kani and under native replay
             line = "use crate::parser::{decode_block, decode_gob, decode_macroblock, decode_picture, H263Reader};"
             if line not in src:
@@ -679,6 +687,7 @@ def main():
     jobs = spec["jobs"]
     if a.only:
         jobs = [j for j in jobs if a.only in j.harness]
+        PARTIAL[0] = True
     if a.list:
         for j in jobs:
             print(j.crate, j.harness, j.timeout, j.expect)
@@ -839,7 +848,9 @@ def write_evidence(prop, tier, seed, spec, results, t0, violations, inconclusive
         "violations": violations,
     }
     os.makedirs(os.path.join(VERIF, "evidence"), exist_ok=True)
-    with open(os.path.join(VERIF, "evidence", prop + ".json"), "w") as f:
+    # a filtered run (--only) is a debugging aid: it must not replace the evidence of a full run
+    name = prop + (".partial" if PARTIAL[0] else "") + ".json"
+    with open(os.path.join(VERIF, "evidence", name), "w") as f:
         json.dump(ev, f, indent=1)
 
 
